@@ -388,7 +388,8 @@ bool vfps::ProgramOptions::parse(int ac, char** av)
                 }
                 notify(_vm);
             }
-        } else if (_configfile != "default.cfg") {
+        } else if (_vm.count("config")) {
+            // only the implicit default.cfg may be missing silently
             std::cout << "Config file \"" << _configfile
                       << "\" does not exist."<< std::endl;
             return false;
